@@ -39,12 +39,18 @@ def classify(rec):
 
 
 def baselines(ctx):
-    out = ctx.path("baselines.ndjson")
-    rc, o = ctx.go_test(PKG, FILES, "^TestZZVerifC13Baselines$", env={"VERIF_OUT": out})
+    """abs() of the golden files and, in the same go test run, the seeded
+    direction-B proposals."""
+    out, tprop = ctx.path("baselines.ndjson"), ctx.path("c13_trace.ndjson")
+    rc, o = ctx.go_test(PKG, FILES, "^(TestZZVerifC13Baselines|TestZZVerifC13Trace)$",
+                        env={"VERIF_OUT": out, "VERIF_OUT2": tprop, "VERIF_N": "250" if ctx.quick else "1500"})
     rows = vlib.read_ndjson(out)
+    props = vlib.read_ndjson(tprop)
     if rc != 0 or len(rows) != LAST + 1:
         raise vlib.Inconclusive("C13 baseline extraction failed:\n" + o[-3000:])
-    return out, rows
+    if len(props) < 50:
+        raise vlib.Inconclusive("C13 trace driver did not complete:\n" + o[-3000:])
+    return out, rows, tprop, props
 
 
 def action_counts(out):
@@ -108,7 +114,7 @@ def report(ctx, rows, by_id, bases, stats):
 def run(ctx):
     rng = random.Random(ctx.seed)
     stats = {"truncated_by_known_finding": 0, "flaky": 0, "skipped": 0}
-    bl, blrows = baselines(ctx)
+    bl, blrows, tprop, props = baselines(ctx)
     extra = [(bl, "baselines.ndjson")]
 
     # ---- direction A: exhaustive single deviations
@@ -116,7 +122,10 @@ def run(ctx):
     # with it; the quick tier infers the same from the emitted vectors (a
     # "base" line is printed by PickBase only, a "vec" line by PickSingle only,
     # and both are reachable only through PickVer and PickKey).
-    gen = ctx.tlc("Migrate", "Migrate.gen.cfg", workers=6, timeout=1500, coverage=not ctx.quick, extra_files=extra)
+    # One TLC run does Migrate.tla's own enumeration and evaluates the
+    # direction-B proposals (TraceMigrate.tla EXTENDS Migrate; AllSpec).
+    gen = ctx.tlc("TraceMigrate", "TraceMigrate.all.cfg", workers=10 if ctx.quick else 8, timeout=1500,
+                  coverage=not ctx.quick, extra_files=extra + [(tprop, "trace.ndjson")])
     if not ctx.quick:
         acts = action_counts(gen["out"])
         for a in ("PickVer", "PickKey", "PickBase", "PickSingle"):
@@ -171,15 +180,7 @@ def run(ctx):
         allv += sel
 
     # ---- direction B: proposals from the harness, evaluated by TraceMigrate
-    tprop = ctx.path("c13_trace.ndjson")
-    rc, o = ctx.go_test(PKG, FILES, "^TestZZVerifC13Trace$",
-                        env={"VERIF_OUT": tprop, "VERIF_N": "250" if ctx.quick else "1500"})
-    props = vlib.read_ndjson(tprop)
-    if rc != 0 or len(props) < 50:
-        raise vlib.Inconclusive("C13 trace driver did not complete:\n" + o[-3000:])
-    tr = ctx.tlc("TraceMigrate", "TraceMigrate.cfg", workers=6, timeout=1500,
-                 extra_files=extra + [(tprop, "trace.ndjson")])
-    tvecs = [v for v in tr["vectors"] if v["kind"] == "vec"]
+    tvecs = [v for v in vectors if v["kind"] == "trace"]
     want = {(p["v"], json.dumps(p["devs"], sort_keys=True)) for p in props}
     got = {(v["v"], json.dumps(v["devs"], sort_keys=True)) for v in tvecs}
     if want != got:
@@ -214,6 +215,11 @@ def run(ctx):
         return (v["kind"] == "vec" and len(v["devs"]) == 1 and not v["err"] and len(v["oks"]) == 1
                 and (v["devs"][0]["d"] == "recs" or v["devs"][0]["d"].startswith("perm")))
     famdocs = [v for v in allv if family(v)]
+    if ctx.quick:
+        # parseConfig works on package globals (no parallelism): the quick
+        # tier loads a seeded half of the client families (all of them are
+        # replayed and shape-checked above), the thorough tier all.
+        famdocs = [v for v in famdocs if v["kind"] != "fam" or rng.random() < 0.5]
     loader, loader_fam = loader_check(ctx, famdocs, by_id, bases)
 
     if stats["skipped"] > len(allv) // 10:
